@@ -118,7 +118,17 @@ type FuncV struct {
 type Opaque struct {
 	Name string
 	T    types.Type
+	Data []*Term // terms the opaque value was built from (e.g. key material of a cipher)
 }
+
+// CFunc: content given element-wise by a function of the index.
+type CFunc struct {
+	F func(i *Term) *Term
+	W int
+}
+
+func (c CFunc) Width() int         { return c.W }
+func (c CFunc) Elem(i *Term) *Term { return c.F(i) }
 
 func BV64(v uint64) *Term { return BVC(64, v) }
 
@@ -406,10 +416,10 @@ func (cx *Ctx) Zero(t types.Type) Value {
 			return Scalar{BVC(w, 0)}
 		}
 		if u.Kind() == types.UnsafePointer {
-			return Opaque{"unsafe.Pointer", t}
+			return Opaque{Name: "unsafe.Pointer", T: t}
 		}
 		if u.Info()&types.IsFloat != 0 {
-			return Opaque{"float", t}
+			return Opaque{Name: "float", T: t}
 		}
 	case *types.Struct:
 		f := make([]Value, u.NumFields())
@@ -448,9 +458,9 @@ func (cx *Ctx) Zero(t types.Type) Value {
 	case *types.Signature:
 		return FuncV{}
 	case *types.Chan:
-		return Opaque{"chan", t}
+		return Opaque{Name: "chan", T: t}
 	}
-	return Opaque{"zero:" + t.String(), t}
+	return Opaque{Name: "zero:" + t.String(), T: t}
 }
 
 // IteV merges two values of the same shape under condition c.
